@@ -123,7 +123,20 @@ class Evaluator:
                         r.cols[ca] = as_kind(r.cols[ca], k)
             return Table(a.cols, rows)
         if isinstance(q, (exp.Intersect, exp.Except)):
-            raise Unsupported(type(q).__name__)
+            # SQL INTERSECT / EXCEPT (DISTINCT): whole-row comparison (NULLs equal), duplicates removed; positional columns
+            if q.args.get("distinct") is False:
+                raise Unsupported("%s ALL" % type(q).__name__)
+            a = self.query(q.this, ctes, outer)
+            b = self.query(q.expression, ctes, outer)
+            if len(a.cols) != len(b.cols):
+                raise Unsupported("set operation arity")
+            rows = []
+            for i, r in enumerate(a.rows):
+                inb = z3.Or(*[z3.And(o.present, *[same(r.cols[ca], o.cols[cb]) for ca, cb in zip(a.cols, b.cols)]) for o in b.rows]) if b.rows else FALSE
+                dup = [z3.And(a.rows[j].present, *[same(r.cols[c], a.rows[j].cols[c]) for c in a.cols]) for j in range(i)]
+                keep = inb if isinstance(q, exp.Intersect) else z3.Not(inb)
+                rows.append(Row(z3.And(r.present, keep, *[z3.Not(d) for d in dup]), dict(r.cols), r.ord))
+            return Table(a.cols, rows)
         if isinstance(q, exp.Select):
             return self.select(q, ctes, outer)
         raise Unsupported("query node %s" % type(q).__name__)
